@@ -104,6 +104,30 @@ def replay_hist(tag, rec):
                               for k2, pj in enumerate(inst['prefs'][s_i])] for s_i in range(inst['ns'])]
                 cl.add('C10', 'debug_instance_block', d['pairs'][:inst['ns']] == exp_pairs,
                        'get_debug instance block %s, file denotes %s' % (d['pairs'][:inst['ns']], exp_pairs))
+        # "each always returns the same text": what a getter returns is a function of the solver state and of the
+        # getter alone - not of which other getters were called before it.  Reference: a second Solver object taken
+        # through the same solves (same stand-in choices) WITHOUT any getter call, on which the getter is the first call.
+        if not use_cbc and last_text:
+            for c, t in sorted(last_text.items()):
+                st2, S2 = impl.construct_solver(solverplay.argv_of(o, path))
+                if st2 != 'ok':
+                    break
+                try:
+                    for ns in range(1, nsolve + 1):
+                        r2 = observe.Recorder(mode='standin', seed=h + 101 * ns, keep_sets=False,
+                                              chooser=(lambda k, n, ns=ns: (ns * 7 + k) % n))
+                        with observe.observing(r2, S2):
+                            with impl.quiet():
+                                S2.solve()
+                    ref = {'results': S2.get_results, 'short': S2.get_results_short, 'long': S2.get_results_long, 'debug': S2.get_debug}[c]()
+                except BaseException as e:  # noqa
+                    cl.add('C18', 'getter_text_independent_of_other_getters', False, 'reference run raised %s: %s' % (type(e).__name__, e))
+                    continue
+                same = isinstance(t, str) and isinstance(ref, str) and restext.mask_volatile(t) == restext.mask_volatile(ref)
+                cl.add('C18', 'getter_text_independent_of_other_getters', same,
+                       '%s() at the end of this history returns a text (%d lines) that differs from what %s() returns when it is the '
+                       'first getter called after the same solves (%d lines)'
+                       % (c, len(str(t).split('\n')), c, len(str(ref).split('\n'))))
         return cl.out, info
     finally:
         os.unlink(path)
